@@ -10,9 +10,9 @@
 * `System.g_islands` / `System.j_islands` (ipadd branch): residual rows of islanded buses are zeroed,
   the stored `gy` entries (a,a),(v,v) become `diag_eps`, (a,v),(v,a) become zero.
 * `ConnMan.init/_update/record/act` (andes/core/connman.py) with `Group.find_idx(allow_all=True)`
-  and `Group.set` as they are written, including: `record` overwrites `changes['off']`, `find_idx`
-  returns the matches of the first model only, a `None` placeholder reaches `Group.set` as soon as two
-  buses are switched off in one change.
+  and `Group.set` as they are written, including: `record` overwrites `changes['off']`, a `None` placeholder
+  reaches `Group.set` as soon as two buses are switched off in one change.  (`find_idx(allow_all=True)` returns the
+  matches of every model since its repair.)
 
 Loops carry explicit fuel; running out of fuel is a distinct result (`none` / `Err.fuel`) which
 `Andes/Proofs/Island.lean` proves unreachable.  No Mathlib import. -/
@@ -177,10 +177,9 @@ deriving Repr, DecidableEq, Inhabited
 def modelMatches (m : List Dev) (k b : Nat) : List Nat :=
   (m.filter fun d => d.buses[k]? == some b).map (·.id)
 
-/-- `Group.find_idx(..., allow_all=True)` for one value: the matches of the FIRST model that has any -/
-def firstMatches : List (List Dev) → Nat → Nat → List Nat
-  | [], _, _ => []
-  | m :: rest, k, b => if (modelMatches m k b).isEmpty then firstMatches rest k b else modelMatches m k b
+/-- `Group.find_idx(..., allow_all=True)` for one value: the matches of every model of the group, in model order
+(on the pinned tree: those of the FIRST model that has any — finding `find-idx-first-model-only`, repaired) -/
+def firstMatches (ms : List (List Dev)) (k b : Nat) : List Nat := ms.flatMap fun m => modelMatches m k b
 
 /-- `list_flatten(grp.find_idx(keys=src_k, values=offbus_idx, ...))`; `none` is Python's `None` -/
 def grpDevsFlat (g : Grp) (offs : List Nat) (k : Nat) : List (Option Nat) :=
